@@ -948,8 +948,9 @@ Theorem registration_match_agrees : forall r d0 margs mkw oracle p,
     match match_procedure (r_dealer r) p oracle with
     | None =>
         meta_call r "wamp.registration.match" d0 margs mkw oracle = (r, MYield [vid 0] [], None) /\
-        call (r_cfg r) (lookup r) (r_now r) (r_dealer r) caller req opts p args kw oracle =
-        CallRefused (r_dealer r) [(s_id caller, RError c_CALL req [] e_no_such_procedure [] [])]
+        exists d',
+          call (r_cfg r) (lookup r) (r_now r) (r_dealer r) caller req opts p args kw oracle =
+          CallRefused d' [(s_id caller, RError c_CALL req [] e_no_such_procedure [] [])]
     | Some rg =>
         meta_call r "wamp.registration.match" d0 margs mkw oracle = (r, MYield [vid (reg_id rg)] [], None) /\
         forall d' callee o,
@@ -961,7 +962,7 @@ Theorem registration_match_agrees : forall r d0 margs mkw oracle p,
 Proof.
   intros r d0 margs mkw oracle p Hp caller req opts args kw.
   rewrite meta_registration_match, Hp. unfold call.
-  destruct (match_procedure (r_dealer r) p oracle) as [rg|]; [|split; reflexivity].
+  destruct (match_procedure (r_dealer r) p oracle) as [rg|]; [|split; [reflexivity|eexists; reflexivity]].
   split; [reflexivity|]. intros d' callee o.
   destruct (reg_callees rg) eqn:Ecs; [discriminate|]. rewrite <- Ecs.
   destruct (opt_bool opts "progress" && _); [discriminate|].
